@@ -363,6 +363,17 @@ def c13_sympy(cfg):
         H2 = H2.subs(pt)
         out2 = block_diagonalize(H2, subspace_indices=idx, symbols=[x, y], hermitian=herm)
         out1 = block_diagonalize(H2, subspace_indices=idx, hermitian=herm)
+        # explicitly given symbols label the indices, also for a ready-made (unsplit) series of the same terms
+        from pymablock.series import BlockSeries
+
+        z0 = {x: 0, y: 0}
+        ready = BlockSeries(data={(0, 0): H2.subs(z0), (1, 0): H2.diff(x).subs(z0), (0, 1): H2.diff(y).subs(z0)}, shape=(), n_infinite=2)
+        for label, outs in (("sympy matrix", out2), ("unsplit BlockSeries", block_diagonalize(ready, subspace_indices=idx, symbols=[x, y], hermitian=herm))):
+            got = [str(n) for S in outs for n in S.dimension_names]
+            if got != [str(x), str(y)] * 3:
+                rec.direct_violation(f"outputs are not labelled with the given symbols ({label})", _sigbase(cfg) + ":sympy-matrix-format:names_without_symbols:given-symbols",
+                                     {"input": label, "dimension_names": got, "expected": [str(x), str(y)]}, reproduced=True)
+                return rec
         names = list(out1[0].dimension_names)
         if sorted(map(str, names)) != sorted(map(str, [x, y])):
             rec.direct_violation("outputs do not name their order indices", _sigbase(cfg) + ":sympy-matrix-format:names_without_symbols:names",
